@@ -39,6 +39,7 @@ type PoolEnt struct {
 	Sel    string `json:"sel"`
 	FailAt int    `json:"failAt"`
 	Hide   bool   `json:"hide"` // value of the variable $hide of the subscriber's request
+	Tag    string `json:"tag"`  // value of the variable $tag of the subscriber's request
 }
 
 type Universe struct {
@@ -72,7 +73,8 @@ func (u *Universe) sdl() string {
 	for _, f := range names {
 		fmt.Fprintf(&b, "  %s: %s\n", f, fields[f])
 	}
-	b.WriteString("}\n")
+	// fields that answer with what they are given (Registry!MsgOf, condition "arg")
+	b.WriteString("  with(p: Pre): String\n  withl(l: [String]): String\n}\ninput Pre { s: String }\n")
 	return b.String()
 }
 
@@ -86,6 +88,15 @@ func (u *Universe) selText(sel string) (string, string) {
 			p = kf[0] + ": " + kf[1]
 		}
 		dir := ""
+		if len(kf) > 2 && kf[2] == "arg" {
+			// the variable stands INSIDE the literal written for the argument
+			arg := "(p: {s: $tag})"
+			if len(kf) > 3 && kf[3] == "list" {
+				arg = "(l: [\"x\", $tag])"
+			}
+			parts = append(parts, kf[0]+": "+kf[1]+arg)
+			continue
+		}
 		if len(kf) > 2 {
 			switch kf[2] {
 			case "skip":
@@ -122,14 +133,15 @@ type logEnt struct {
 }
 
 type world struct {
-	shared bool                        // subscription requests are parsed once per selection and resolved per subscriber
-	exes   map[string]*ggql.Executable // (guarded by mu)
-	u      *Universe
-	root   *ggql.Root
-	subs   []*hsub // index s-1
-	mu     sync.Mutex
-	log    []logEnt
-	evObj  map[string][2]interface{}
+	concurrent bool                        // several goroutines use the root at once: what the registry holds between two calls is not this caller's to judge
+	shared     bool                        // subscription requests are parsed once per selection and resolved per subscriber
+	exes       map[string]*ggql.Executable // (guarded by mu)
+	u          *Universe
+	root       *ggql.Root
+	subs       []*hsub // index s-1
+	mu         sync.Mutex
+	log        []logEnt
+	evObj      map[string][2]interface{}
 }
 
 type hsub struct {
@@ -239,12 +251,39 @@ type evResolver struct{ vals map[string]TV }
 
 func (e *evResolver) Resolve(field *ggql.Field, args map[string]interface{}) (interface{}, error) {
 	probePoint("resolve", 0)
+	switch field.Name {
+	case "with":
+		return given(args["p"], nil), nil
+	case "withl":
+		return given(nil, args["l"]), nil
+	}
 	tv, ok := e.vals[field.Name]
 	if !ok {
 		return nil, fmt.Errorf("no field %s", field.Name)
 	}
 	return goVal(tv), nil
 }
+
+// given: what the fields with / withl answer with: the member s of the input object, the last member of the list.
+func given(p, l interface{}) interface{} {
+	if m, _ := p.(map[string]interface{}); m != nil {
+		return m["s"]
+	}
+	if a, _ := l.([]interface{}); 0 < len(a) {
+		return a[len(a)-1]
+	}
+	return nil
+}
+
+// evPlain is the event of the universes (a name and a number) for the reflection strategy: struct fields, and methods
+// for the fields that take an argument.
+type evPlain struct {
+	Name string
+	N    int
+}
+
+func (e *evPlain) With(p map[string]interface{}) interface{} { return given(p, nil) }
+func (e *evPlain) Withl(l []interface{}) interface{}         { return given(nil, l) }
 
 func goVal(tv TV) interface{} {
 	switch tv.K {
@@ -258,6 +297,9 @@ func goVal(tv TV) interface{} {
 
 // evStruct builds the event as a plain struct for the reflection strategy.
 func evStruct(vals map[string]TV) interface{} {
+	if len(vals) == 2 && vals["name"].K == "str" && vals["n"].K == "int" {
+		return &evPlain{Name: vals["name"].V.(string), N: int(vals["n"].V.(float64))}
+	}
 	names := make([]string, 0, len(vals))
 	for f := range vals {
 		names = append(names, f)
@@ -302,6 +344,8 @@ func (w *world) subscribe(s int) map[string]interface{} {
 	sel, frags := w.u.selText(w.u.Pool[s-1].Sel)
 	hide := w.u.Pool[s-1].Hide
 	usesHide := strings.Contains(sel, "$hide")
+	tag := w.u.Pool[s-1].Tag
+	usesTag := strings.Contains(sel, "$tag")
 	if w.shared {
 		// one parsed request per selection, resolved once per subscriber (a server that prepares its requests):
 		// every subscription still gets its own selection set applied to the events
@@ -313,6 +357,9 @@ func (w *world) subscribe(s int) map[string]interface{} {
 			if usesHide {
 				decl += ", $hide: Boolean"
 			}
+			if usesTag {
+				decl += ", $tag: String"
+			}
 			if exe, err = w.root.ParseExecutableString(fmt.Sprintf("subscription(%s) { watch(sub: $s) { %s } }%s", decl, sel, frags)); err != nil {
 				w.mu.Unlock()
 				return map[string]interface{}{"errors": ggql.FormErrorsResult(err)}
@@ -320,7 +367,7 @@ func (w *world) subscribe(s int) map[string]interface{} {
 			w.exes[sel] = exe
 		}
 		w.mu.Unlock()
-		res, err := w.root.ResolveExecutable(exe, "", map[string]interface{}{"s": s, "hide": hide})
+		res, err := w.root.ResolveExecutable(exe, "", map[string]interface{}{"s": s, "hide": hide, "tag": tag})
 		if res == nil {
 			res = map[string]interface{}{}
 		}
@@ -334,6 +381,20 @@ func (w *world) subscribe(s int) map[string]interface{} {
 		// line 4 of ITS document): its errors are its own, the answer to the subscription request that follows has none
 		w.root.ResolveString("query Other(\n\n\n $v: Int) { __typename }", "", map[string]interface{}{"v": "no number"})
 	}
+	if (s+worldCount)%3 == 0 {
+		// Registry!SubscribeRefused: a subscription request one of whose root fields fails is refused as a whole: it
+		// registers nothing, whatever its other root fields resolved to (in either order)
+		before := w.reg()
+		for _, text := range []string{"subscription { a: watch(sub: %d) { name } b: watch(sub: 0) { name } }", "subscription { b: watch(sub: 0) { name } a: watch(sub: %d) { name } }"} {
+			r := w.root.ResolveString(fmt.Sprintf(text, s), "", nil)
+			if r["errors"] == nil {
+				return map[string]interface{}{"errors": "a subscription request with a failing root field (no subscriber 0) was answered without errors: " + vh.JS(r)}
+			}
+		}
+		if after := w.reg(); !w.concurrent && !intsEq(before, after) { // (with other goroutines at work the trace judges)
+			return map[string]interface{}{"errors": fmt.Sprintf("a refused subscription request changed the registry: %v before, %v after", before, after)}
+		}
+	}
 	// the subscription field stands in the operation itself, in an inline fragment or in a named fragment spread there
 	field := fmt.Sprintf("watch(sub: %d) { %s }", s, sel)
 	switch (s + worldCount) % 3 {
@@ -344,13 +405,31 @@ func (w *world) subscribe(s int) map[string]interface{} {
 		field = "...Root"
 	}
 	// the subscriber's variable comes with the request or is defaulted by it
-	switch {
-	case !usesHide:
-		return w.root.ResolveString(fmt.Sprintf("subscription { %s }%s", field, frags), "", nil)
-	case s%2 == 1:
-		return w.root.ResolveString(fmt.Sprintf("subscription($hide: Boolean) { %s }%s", field, frags), "", map[string]interface{}{"hide": hide})
+	var decl []string
+	vars := map[string]interface{}{}
+	if usesHide {
+		if s%2 == 1 {
+			decl = append(decl, "$hide: Boolean")
+			vars["hide"] = hide
+		} else {
+			decl = append(decl, fmt.Sprintf("$hide: Boolean = %v", hide))
+		}
 	}
-	return w.root.ResolveString(fmt.Sprintf("subscription($hide: Boolean = %v) { %s }%s", hide, field, frags), "", nil)
+	if usesTag { // (the other way round: the one that gives $hide leaves $tag to its default)
+		if s%2 == 0 {
+			decl = append(decl, "$tag: String")
+			vars["tag"] = tag
+		} else {
+			decl = append(decl, fmt.Sprintf("$tag: String = %q", tag))
+		}
+	}
+	if len(decl) == 0 {
+		return w.root.ResolveString(fmt.Sprintf("subscription { %s }%s", field, frags), "", nil)
+	}
+	if len(vars) == 0 {
+		vars = nil
+	}
+	return w.root.ResolveString(fmt.Sprintf("subscription(%s) { %s }%s", strings.Join(decl, ", "), field, frags), "", vars)
 }
 
 func (w *world) reg() []int {
@@ -921,6 +1000,7 @@ func cmdStress(args []string) {
 	rng := rand.New(rand.NewSource(vh.Seed()))
 	for it := 0; it < *iters; it++ {
 		w := newWorld(&u)
+		w.concurrent = true
 		st := &stressLog{w: w, u: &u, open: map[int64]int{}}
 		// goroutine identity for the hook: each goroutine registers before each call
 		activeStress = st
@@ -1382,6 +1462,7 @@ func cmdRace(args []string) {
 	rng := rand.New(rand.NewSource(vh.Seed()))
 	for it := 0; it < *iters; it++ {
 		w := newWorld(&u)
+		w.concurrent = true
 		for _, h := range w.subs {
 			h.pure = true
 		}
